@@ -90,6 +90,7 @@ def run_case(ffi, getfn, case, G):
             cells.append(c)
         args = [build_arg(ffi, d, cells, keep) for d in case["args"]]
         prime = [build_arg(ffi, d, cells, keep) for d in case["prime"]] if case.get("prime") else None
+        after = [build_arg(ffi, d, cells, keep) for d in case["after"]] if case.get("after") else None
     except Exception as e:               # the types of this path's ffi cannot even build the arguments
         return failed(case, "SetupError", e)
     try:
@@ -107,6 +108,12 @@ def run_case(ffi, getfn, case, G):
     except Exception as e:
         obs = {"exc": type(e).__name__, "ret": {"k": "none"}, "msg": str(e)[:200]}
     else:
+        if after is not None:          # a later call must not change the result object already returned
+            try:
+                fn(*after)
+            except Exception:
+                pass
+            ffi.errno = ffi.errno
         try:
             obs = {"exc": "", "ret": enc_result(ffi, r, cells, G.tla_type_of_ctype, G.img8, G.le_bytes)}
         except Exception as e:
